@@ -235,7 +235,7 @@ UNITS['half_lock'] = dict(
     name='half_lock', engine='kani', crate='signal-hook-registry', inject=[('signal-hook-registry/src/half_lock.rs', K + 'half_lock.rs')], flags=FFI,
     scan=[K + 'libc_model.rs'],
     harnesses={
-        'c01_read': dict(props=['C01', 'C03']),
+        'c01_read': dict(props=['C01', 'C03', 'C18']),
         'c01_store': dict(props=['C01', 'C18'], unwind_obl='C18.BARRIER-BOUNDED'),
         'c01_write_guard': dict(props=['C01', 'C18']),
     })
@@ -244,7 +244,7 @@ obl('C01.R-ORDER', FH + 'HalfLock::read', 'ghost trace is exactly [load generati
 obl('C01.R-SLOT', FH + 'HalfLock::read', 'the slot incremented is generation%2, by 1')
 obl('C01.R-SEQCST', FH + 'HalfLock::read, update_seen', 'all half-lock accesses SeqCst')
 obl('C01.R-PTR', FH + 'HalfLock::read', 'guard.data is the pointer loaded after the increment')
-obl('C01.R-DEC', FH + 'ReadGuard::drop', 'exactly one fetch_sub(1) on the slot that was incremented')
+obl('C01.R-DEC', FH + 'ReadGuard::drop', 'exactly one fetch_sub(1) on the slot that was incremented (whatever the generation is by then)', also=['C18'])
 obl('C01.U-STEP', FH + 'HalfLock::update_seen', 'one pass: one load per not-yet-drained slot')
 obl('C01.W-ZERO', FH + 'HalfLock::write_barrier', 'returns only after each slot was observed 0 since the swap')
 obl('C01.S-ORDER', FH + 'WriteGuard::store', 'swap(new) first; free(old) last and only after the barrier (both zero seen, flip done)')
